@@ -17,6 +17,7 @@ Python decides nothing about the property: it renders, batches, and names the fi
 from __future__ import annotations
 
 import json
+import os
 import random
 from pathlib import Path
 
@@ -120,8 +121,8 @@ class Concretiser:
 # ---------------------------------------------------------------------------------------------------------
 GEN_BOUNDS = {
     # (MaxLen, MaxMutLen, MaxProbeLen, MaxProbeInsLen, simulated documents, Fuel)
-    ("exec", "quick"): (8, 4, 7, 0, 350, 12), ("exec", "thorough"): (10, 5, 8, 0, 3000, 18),
-    ("sdl", "quick"): (6, 3, 5, 0, 350, 12), ("sdl", "thorough"): (7, 4, 6, 5, 3000, 18),
+    ("exec", "quick"): (8, 4, 7, 0, 350, 12), ("exec", "thorough"): (10, 5, 8, 0, 2000, 18),
+    ("sdl", "quick"): (6, 3, 5, 0, 350, 12), ("sdl", "thorough"): (7, 4, 6, 6, 2000, 18),
 }
 BLOCK_BOUND = {"quick": 3, "thorough": 5}
 MUT_KINDS = {"drop", "dup", "swap", "trunc", "replace", "insert"}
@@ -135,10 +136,10 @@ def _write_cfg(path: Path, consts: dict, invariant: str):
     path.write_text("\n".join(lines) + "\n")
 
 
-def par(jobs: dict):
+def par(jobs: dict, limit: int = 5):
     """Run independent TLC invocations concurrently (they are separate JVMs).  jobs: name -> thunk."""
     from concurrent.futures import ThreadPoolExecutor
-    with ThreadPoolExecutor(max_workers=max(1, len(jobs))) as ex:
+    with ThreadPoolExecutor(max_workers=max(1, min(limit, len(jobs)))) as ex:
         futs = {name: ex.submit(fn) for name, fn in jobs.items()}
         return {name: f.result() for name, f in futs.items()}
 
@@ -200,10 +201,10 @@ def generate_all(chk: vlib.Check, grammars):
                     docs.setdefault(tuple(val), mode)
                     n[mode] += 1
                 elif tag == "MUT":
-                    muts.setdefault(tuple(val["t"]), val["m"])
+                    muts.setdefault(tuple(val["t"]), val["m"] + (":probe" if val["probe"] else ""))
         if n["mc"] == 0 or n["sim"] == 0:
             raise vlib.ToolError(f"generator produced no documents ({which}: {n})")
-        kinds = set(muts.values())
+        kinds = {k.split(":")[0] for k in muts.values()}
         if kinds != MUT_KINDS:
             raise vlib.ToolError(f"vacuous generator run ({which}): mutation kinds never applied: {MUT_KINDS - kinds}")
         for d in docs:
@@ -252,7 +253,7 @@ def tlc_judge(chk: vlib.Check, part, module: str, name: str):
     trace = chk.work / f"trace-{name}.ndjson"
     vlib.write_ndjson(trace, [record_of(c) for c in part])
     r = vlib.tlc(SPEC / f"{module}.tla", SPEC / f"{module}.cfg", workers=1, timeout=1500, dfs=True,
-                 env={"TRACE": str(trace)}, metadir=chk.work / f"md-{name}", heap="6g")
+                 env={"TRACE": str(trace)}, metadir=chk.work / f"md-{name}", heap="4g")
     if r.violated:
         raise vlib.ToolError(f"{module} on {trace.name}: unexpected {r.violated}\n{r.out[-3000:]}")
     if r.distinct != len(part) + 1:
@@ -403,10 +404,10 @@ def is_plain(t):
 
 
 def payload_feature(t):
-    lx = lexeme(t)
+    """Name of the lexical matter, at the level of the token class (never the seed-chosen text)."""
     if t["k"] == "INT" and len(t["src"]) > 18:
         return "INT(beyond-i64)"
-    return f"{t['k']}({slug(lx, 24) or 'empty'})"
+    return t["k"]
 
 
 def raw_key(case, val):
@@ -652,14 +653,45 @@ SDL_WRAPS = [
 
 
 def block_cases(con: Concretiser, api: str, bodies, ids):
+    """Every body inside an argument (exec) / inside descriptions and a default value (sdl).  Bodies of the maximal
+    length (the bulk) go into one of the sdl documents each, in rotation; shorter ones into all three."""
     cases = []
-    for b in bodies:
+    longest = max(len(b) for b in bodies)
+    for n, b in enumerate(bodies):
         body = "".join(chr(c) for c in b)
         wraps = [EXEC_WRAP] if api == "relay_exec" else SDL_WRAPS
+        if api != "relay_exec" and len(b) == longest and longest > 3:
+            wraps = [SDL_WRAPS[n % len(SDL_WRAPS)]]
         for w in wraps:
             fixed = {i: body for i, k in enumerate(w) if k == "BLOCKSTRING"}
             toks, text = con.render(w, fixed=fixed, plain=True)
             cases.append({"id": next(ids), "api": api, "toks": toks, "text": text, "origin": "blockstring"})
+    return cases
+
+
+def classify_lexeme(lx: str):
+    """Token record of one lexeme of the fixed corpus (GqlJudge.ToksOK / LexAgree re-check it in TLA+)."""
+    if lx.startswith('"""'):
+        return {"k": "BLOCKSTRING", "s": "", "src": cps(lx[3:-3])}
+    if lx.startswith('"'):
+        return {"k": "STRING", "s": "", "src": cps(lx[1:-1])}
+    if lx[0].isdigit() or lx[0] == "-":
+        return {"k": "FLOAT" if any(c in lx for c in ".eE") else "INT", "s": "", "src": cps(lx)}
+    if lx in PUNCT or lx in RESERVED:
+        return {"k": lx, "s": lx, "src": []}
+    return {"k": "NAME", "s": lx, "src": []}
+
+
+def corpus_cases(apis, ids):
+    """The fixed corpus: one minimal document per known class of disagreement (spec/gqlgrammar/findings_corpus.json),
+    judged on every run by the same TLA+ predicates, so that what is reported does not depend on the seed."""
+    cases = []
+    for e in json.loads((SPEC / "findings_corpus.json").read_text()):
+        toks = [classify_lexeme(lx) for lx in e["lexemes"]]
+        text = cps(" ".join(e["lexemes"]) + e.get("suffix", ""))
+        for api in e["apis"]:
+            if api in apis:
+                cases.append({"id": next(ids), "api": api, "toks": toks, "text": text, "origin": f"corpus:{e['note']}"})
     return cases
 
 
@@ -675,18 +707,25 @@ def run(chk: vlib.Check) -> None:
     con = Concretiser(chk.seed)
     ids = counter()
     variants = 1
+    corpus_only = os.environ.get("VERIF_GQL_ONLY") == "corpus"      # development aid: judge the fixed corpus only
+    grammars = ["exec", "sdl"] if chk.prop == "C29" else ["sdl"]
+    if corpus_only:
+        gens, bodies = {w: ({}, {}) for w in grammars}, []
+    else:
+        gens, bodies = generate_all(chk, grammars)
     if chk.prop == "C29":
-        gens, bodies = generate_all(chk, ["exec", "sdl"])
         plan = [("exec", "relay_exec", "exec", True), ("sdl", "relay_sdl", "sdl", True)]
     else:
-        gens, bodies = generate_all(chk, ["sdl"])
         plan = [("schema-doc", "iso_schema", "sdl", True), ("extension-doc", "iso_ext", "sdl", False)]
     groups, samples = {}, []
     for label, api, which, with_blocks in plan:
         docs, muts = gens[which]
+        if api == "iso_ext":        # the second entry point shares all code below the document level: no probe-word mutants
+            muts = {t: k for t, k in muts.items() if not k.endswith(":probe")}
         cases = make_cases(con, api, docs, muts, ids, variants=variants)
-        if with_blocks:
+        if with_blocks and bodies:
             cases += block_cases(con, api, bodies, ids)
+        cases += corpus_cases({api}, ids)
         run_harness(bindir, cases)
         groups[label] = (TRACE_MODULE[api], cases)
         for c in cases[:1] + cases[len(docs) * variants:len(docs) * variants + 1]:
@@ -732,6 +771,8 @@ def run(chk: vlib.Check) -> None:
     chk.cov["samples"] = samples[:6]
     chk.cov["trusted_base"] = ["engines/gqlgrammar.py:Concretiser", "harness/h_gql (projection)", "TLC"]
     for label, t in totals.items():
+        if corpus_only:
+            break
         # non-vacuity: every production of the grammar must have been exercised (thorough); quick tolerates a few
         missing = t["productions_never_exercised"]
         if missing and (chk.tier == "thorough" or len(missing) * 10 > t["productions_of_grammar"]):
